@@ -19,6 +19,8 @@
 //!   t <label> <ctx> <hex>     template source: add_template + render against context zoo entry
 //!   e <label> <ctx> <hex>     expression source: compile_expression + eval
 //!   d <construct> <n>         depth probe: nesting depth n of one recursive syntactic construct
+//!   f <p|s> <args> <hex>      format string (printf / str.format style) through
+//!                             `minijinja::formatting::format` with one of six argument sets
 //! Results: `ok:…`, `err:<ErrorKind>`, `panic:<file>:<msg>`, `signal:<n>`, `timeout`.
 //! Case order of `gen`: corpus (`/verif/corpus/C01/*.cases`, minimised past failures), depth probes,
 //! kernels, builtins (names read from the `defaults.rs` this binary was built against), mutants.
@@ -152,6 +154,7 @@ fn make_env(fuel: Option<u64>) -> Environment<'static> {
         let _ = env.add_template_owned(n, s);
     }
     env.add_function("echo", |args: Rest<Value>| Value::from(args.0));
+    minijinja_contrib::add_to_environment(&mut env);
     env
 }
 
@@ -547,9 +550,44 @@ fn run_depth(kind: &str, n: usize) -> String {
     }
 }
 
+/// argument sets for the direct calls of `minijinja::formatting::format`
+fn fmt_args(which: usize) -> Vec<Value> {
+    use minijinja::value::Kwargs;
+    let map = Value::from(Serde(serde_json::json!({"é": 1, "a": [1, 2], "k": {"é": "v", "0": 7}, "日本": "x"})));
+    let kwargs = Value::from(Kwargs::from_iter([
+        ("é", Value::from(1)),
+        ("a", Value::from(vec![1, 2])),
+        ("k", Value::from(Serde(serde_json::json!({"é": "v"})))),
+        ("日本", Value::from("x")),
+    ]));
+    match which % 6 {
+        0 => vec![],
+        1 => vec![Value::from(1)],
+        2 => vec![Value::from(1.5), Value::from("é€𝄞"), Value::from(-3)],
+        3 => vec![map],
+        4 => vec![Value::from(i128::MAX), Value::from(u64::MAX), Value::from(f64::NAN), Value::from(f64::NEG_INFINITY)],
+        _ => vec![Value::from("é"), Value::from(65), kwargs],
+    }
+}
+
+/// `f <p|s> <argset> <hex spec>`: the format engine called directly (what the `format` filter and
+/// pycompat's `str.format` do)
+fn run_format(style: &str, which: usize, spec: &str) -> String {
+    use minijinja::formatting::{format, FormatStyle};
+    finish(guarded(|| {
+        let st = if style == "p" { FormatStyle::Printf } else { FormatStyle::StrFormat };
+        let out = format(st, spec, &fmt_args(which))?;
+        Ok(format!("ok:{}", out.len()))
+    }))
+}
+
 fn run_case(case: &str) -> String {
     let f: Vec<&str> = case.split(' ').collect();
     match f[0] {
+        "f" if f.len() == 4 => match String::from_utf8(unhex(f[3])) {
+            Ok(s) => run_format(f[1], f[2].parse().unwrap_or(0), &s),
+            Err(_) => "bad-utf8".into(),
+        },
         "k" => run_kernel(&f[1..]),
         "t" if f.len() == 4 => match String::from_utf8(unhex(f[3])) {
             Ok(s) => run_template(f[1], f[2].parse().unwrap_or(0), &s),
@@ -562,6 +600,157 @@ fn run_case(case: &str) -> String {
         "d" if f.len() == 3 => run_depth(f[1], f[2].parse().unwrap_or(0)),
         _ => "bad-case".into(),
     }
+}
+
+// ------------------------------------------------------------------------------------ operand stack
+/// One token of the stack-relevant alphabet (`MJ/Model/Stk.lean: Instr`) per instruction.  The
+/// match is exhaustive on purpose: a new instruction in the enum breaks the build of the harness
+/// (= broken tie), it is never silently given an effect.  `prev` = the instruction before (the
+/// argument-name list of `BuildMacro`).
+fn stk_tok(i: &minijinja::machinery::Instruction<'_>, prev: Option<&minijinja::machinery::Instruction<'_>>) -> String {
+    use minijinja::machinery::Instruction::*;
+    use minijinja::value::ValueKind;
+    let e = |a: usize, b: usize| format!("e:{}:{}", a, b);
+    match i {
+        EmitRaw(_) => e(0, 0),
+        StoreLocal(_) => e(1, 0),
+        Lookup(_) => e(0, 1),
+        GetAttr(_) => e(1, 1),
+        SetAttr(_) => e(2, 0),
+        GetItem => e(2, 1),
+        Slice => e(4, 1),
+        LoadConst(v) => {
+            // what `usize::try_from(value)` (the conversion the VM applies to a count) sees
+            match (v.kind(), usize::try_from(v.clone())) {
+                (ValueKind::Number, Ok(0)) => "z".into(),
+                (ValueKind::Number, Ok(1)) => "o".into(),
+                (ValueKind::Seq, _) => format!("ll:{}", v.len().unwrap_or(0)),
+                _ => e(0, 1),
+            }
+        }
+        BuildMap(n) | BuildKwargs(n) => e(2 * n, 1),
+        MergeKwargs(n) => e(*n, 1),
+        BuildList(Some(n)) => format!("bl:{}", n),
+        BuildList(None) | BuildTuple(None) => "bd".into(),
+        BuildTuple(Some(n)) => e(*n, 1),
+        UnpackList(n) => e(1, *n),
+        UnpackLists(n) => format!("ul:{}", n),
+        Add => "add".into(),
+        Sub | Mul | Div | IntDiv | Rem | Pow | Eq | Ne | Gt | Gte | Lt | Lte | StringConcat | In => e(2, 1),
+        Neg | Not | IsUndefined => e(1, 1),
+        CompareAndPreserve(_) => e(2, 2),
+        ApplyFilter(_, Some(n), _) | PerformTest(_, Some(n), _) => format!("call:{}:0:0", n),
+        ApplyFilter(_, None, _) | PerformTest(_, None, _) => "cdyn:0:0".into(),
+        CallFunction(_, Some(n)) => format!("call:{}:0:1", n),
+        CallFunction(_, None) => "cdyn:0:1".into(),
+        CallMethod(_, Some(n)) | CallObject(Some(n)) => format!("call:{}:1:0", n),
+        CallMethod(_, None) | CallObject(None) => "cdyn:1:0".into(),
+        Emit => e(1, 0),
+        PushLoop(flags) => format!("pl:{}", (flags >> 1) & 1),
+        PushWith | PopFrame | PopAutoEscape | BeginCapture(_) | FastSuper | CallBlock(_) | Enclose(_) => e(0, 0),
+        Iterate(t) => format!("it:{}", t),
+        PushDidNotIterate | EndCapture | GetClosure => e(0, 1),
+        PopLoopFrame => "plf".into(),
+        Jump(t) => format!("j:{}", t),
+        JumpIfFalse(t) => format!("jf:{}", t),
+        JumpIfFalseOrPop(t) => format!("jfp:{}", t),
+        JumpIfTrueOrPop(t) => format!("jtp:{}", t),
+        PushAutoEscape | DiscardTop | LoadBlocks | Include(_) => e(1, 0),
+        ExportLocals => e(1, 1),
+        DupTop => "dup".into(),
+        Swap => "sw".into(),
+        FastRecurse => "fr".into(),
+        BuildMacro(_, off, _) => {
+            let nargs = match prev {
+                Some(LoadConst(v)) => v.len().unwrap_or(usize::MAX),
+                _ => usize::MAX,
+            };
+            format!("bm:{}:{}", off, nargs)
+        }
+        Return => "ret".into(),
+    }
+}
+
+fn stk_dump(instrs: &minijinja::machinery::Instructions<'_>) -> String {
+    let mut toks = vec![];
+    let mut pc = 0u32;
+    let mut prev = None;
+    while let Some(i) = instrs.get(pc) {
+        toks.push(stk_tok(i, prev));
+        prev = Some(i);
+        pc += 1;
+    }
+    toks.join(" ")
+}
+
+/// `S <TAB> case <TAB> stream <TAB> tokens` for every instruction stream (main + blocks) of every
+/// template of the case list that compiles; identical token strings are printed once.
+fn dump_streams(thorough: bool) {
+    let mut seen = std::collections::HashSet::new();
+    let out = std::io::stdout();
+    let mut out = std::io::BufWriter::new(out.lock());
+    let mut sources: Vec<(String, String)> = vec![];
+    for c in gen_cases(thorough) {
+        let f: Vec<&str> = c.split(' ').collect();
+        if f[0] == "t" && f.len() == 4 {
+            if let Ok(s) = String::from_utf8(unhex(f[3])) {
+                sources.push((c.clone(), s));
+            }
+        } else if f[0] == "e" && f.len() == 4 {
+            if let Ok(s) = String::from_utf8(unhex(f[3])) {
+                sources.push((c.clone(), format!("{{{{ {} }}}}", s)));
+            }
+        } else if f[0] == "d" && f.len() == 3 {
+            for n in [3usize, 40] {
+                let (s, is_t) = depth_source(f[1], n);
+                sources.push((format!("d {} {}", f[1], n), if is_t { s } else { format!("{{{{ {} }}}}", s) }));
+            }
+        }
+    }
+    let mut n_compiled = 0usize;
+    for (case, src) in sources {
+        let r = guarded(|| {
+            let mut env = make_env(None);
+            if env.add_template_owned("case.txt".to_string(), src).is_err() {
+                return vec![];
+            }
+            let t = env.get_template("case.txt").unwrap();
+            let c = minijinja::machinery::get_compiled_template(&t);
+            let mut v = vec![("main".to_string(), stk_dump(&c.instructions))];
+            for (name, b) in c.blocks.iter() {
+                v.push((format!("block:{}", name), stk_dump(b)));
+            }
+            v
+        });
+        if let Ok(v) = r {
+            if !v.is_empty() {
+                n_compiled += 1;
+            }
+            for (name, toks) in v {
+                if seen.insert(toks.clone()) {
+                    writeln!(out, "S\t{}\t{}\t{}", case, name.replace('\t', " "), toks).unwrap();
+                }
+            }
+        }
+    }
+    // companions (repo fixtures in tests/inputs/refs) as well
+    let env = make_env(None);
+    for (name, _) in companions() {
+        if let Ok(t) = env.get_template(&name) {
+            let c = minijinja::machinery::get_compiled_template(&t);
+            let toks = stk_dump(&c.instructions);
+            if seen.insert(toks.clone()) {
+                writeln!(out, "S\tcompanion {}\tmain\t{}", name, toks).unwrap();
+            }
+            for (bn, b) in c.blocks.iter() {
+                let toks = stk_dump(b);
+                if seen.insert(toks.clone()) {
+                    writeln!(out, "S\tcompanion {}\tblock:{}\t{}", name, bn, toks).unwrap();
+                }
+            }
+        }
+    }
+    writeln!(out, "N\t{}", n_compiled).unwrap();
 }
 
 // ------------------------------------------------------------------------------------ worker
@@ -766,6 +955,7 @@ const ARG_ZOO: &[&str] = &[
     "''", "'a'", "'abc'", "'%s'", "'%5d'", "'{}'", "'name'", "'age'", "'tags'", "'0'", "'a.b'", "'e'", "'upper'", "'odd'",
     "none", "undefinedvar", "true", "false", "[]", "[1, 2, 3]", "[[1], [2]]", "{}", "{'a': 1}", "xs", "m", "s", "es",
     "users", "nested", "range(3)", "it", "by", "ms", "safe", "big", "small", "mixed", "[none]", "['a', 'b']", "(1, 2)",
+    "'é'", "'€é𝄞'", "' é € '", "'%(é)s'", "'{é}'", "'é.é'", "'\u{301}'", "'ß'", "'ǆ'", "'é\né'",
     "[nan, nan]", "[users, users]", "namespace()", "range", "echo",
 ];
 
@@ -773,14 +963,16 @@ const RECV_ZOO: &[&str] = &[
     "n", "undefinedvar", "t", "i0", "i1", "im", "big", "small", "ubig", "huge", "nhuge", "fl", "nan", "inf", "s", "es", "ms",
     "safe", "long", "by", "xs", "exs", "ss", "mixed", "nested", "users", "m", "em", "it", "once", "range(5)", "(1, 2)",
     "namespace(a=1)", "range", "[[1, 2], [3, 4]]", "[big, small, 0]", "['10', '9', 'a']", "{'b': 1, 'a': [2]}", "fmt",
-    "uhuge", "nzero", "fbig",
+    "uhuge", "nzero", "fbig", "'é'", "'€é𝄞 ǆß'", "' é  €\t𝄞 '", "'%(é)s %s {é} {0}'", "'<é>&amp;€</é>'", "'é,€,𝄞'",
+    "['é', '€']", "{'é': '€'}",
 ];
 
 const KWARGS: &[&str] = &[
     "width=9223372036854775807", "width=3", "indent=9223372036854775807", "indent=2", "indent=true", "attribute='name'",
     "attribute='a.b.c'", "attribute=0", "case_sensitive=true", "reverse=true", "default='d'", "first=true", "blank=true",
     "by='value'", "by='x'", "d=1", "boolean=true", "sep=none", "maxsplit=9223372036854775807", "maxsplit=0",
-    "**m", "*xs", "**{}", "*[]", "*big", "**s", "a=1",
+    "**m", "*xs", "**{}", "*[]", "*big", "**s", "a=1", "**{'é': 1}", "length=1", "length=0", "length=9223372036854775807",
+    "killwords=true", "end='é€'", "leeway=0", "chars='é'", "sep='é'", "d='é'",
 ];
 
 fn add_call_cases(out: &mut Vec<String>, rng: &mut Rng, label: &str, mk: &dyn Fn(&str, &str) -> String, recvs: &[&str], per_recv_args: usize, thorough: bool) {
@@ -845,6 +1037,14 @@ fn gen_builtin_cases(out: &mut Vec<String>, rng: &mut Rng, thorough: bool) {
             if a.is_empty() { format!("{{{{ {}|{} }}}}{{{{ {}|{}() }}}}", r, nm, r, nm) } else { format!("{{{{ {}|{}({}) }}}}", r, nm, a) }
         }, &recvs, per, thorough);
     }
+    for name in ["pluralize", "filesizeformat", "truncate", "striptags"] {
+        // minijinja-contrib filters available without optional features
+        let recvs = pick_recvs(rng);
+        let nm = name.to_string();
+        add_call_cases(out, rng, &format!("filter:{}", name), &move |r, a| {
+            if a.is_empty() { format!("{{{{ {}|{} }}}}", r, nm) } else { format!("{{{{ {}|{}({}) }}}}", r, nm, a) }
+        }, &recvs, per, thorough);
+    }
     for name in builtin_names("build_builtin_tests") {
         let recvs = pick_recvs(rng);
         let nm = name.clone();
@@ -896,6 +1096,14 @@ fn gen_builtin_cases(out: &mut Vec<String>, rng: &mut Rng, thorough: bool) {
     add_call_cases(out, rng, "block:self", &|_r, a| {
         format!("{{% extends 'layout.html' %}}{{% block title %}}{{{{ super({}) }}}}{{{{ self.body({}) }}}}{{% endblock %}}{{% block body %}}b{{% endblock %}}", a, a)
     }, &["x"], per * 2, thorough);
+    // string-literal escapes and byte-wise string walkers with multi-byte characters around them
+    for (i, lit) in ["\\é", "\\u00e9", "\\uD83D", "\\uD83D\\uDE00", "\\uDE00", "\\u12", "\\u", "\\x41", "\\x", "\\xé", "é\\", "\\",
+        "\\u{1F600}", "\\n\\r\\t\\b\\f\\/", "é\\n€", "\\U0001F600", "\\0", "\\uéééé", "𝄞\\u0301", "\\u005C\\u0027"].iter().enumerate() {
+        for q in ["'", "\""] {
+            let src = format!("{{{{ {q}{lit}{q} }}}}{{{{ {q}{lit}{q}|length }}}}{{{{ {q}a{lit}{q}|upper|urlencode }}}}{{{{ {q}{lit} x  y{q}|title|split|list }}}}");
+            out.push(format!("t esc:string {} {}", i % 2, hex(src.as_bytes())));
+        }
+    }
     // operators on the zoo (binary + unary + subscripts), incl. the lazily concatenated/repeated objects
     let ops = ["+", "-", "*", "/", "//", "%", "**", "~", "==", "<", "in", "and", "or", "not in", "!=", ">="];
     let n_ops = if thorough { 12000 } else { 2000 };
@@ -910,6 +1118,98 @@ fn gen_builtin_cases(out: &mut Vec<String>, rng: &mut Rng, thorough: bool) {
             _ => format!("{{% for k in ({} {} {}) %}}{{{{ k }}}}{{% endfor %}}", a, op, b),
         };
         out.push(format!("t op:{} {} {}", op.replace(' ', "_"), i % 2, hex(src.as_bytes())));
+    }
+}
+
+// ---- format strings from a grammar, multi-byte characters in every position ------------------------
+const MB: &[&str] = &["é", "€", "𝄞", "\u{301}", "٣"];
+
+fn gen_format_cases(out: &mut Vec<String>, rng: &mut Rng, thorough: bool) {
+    let printf_base: &[&str] = &[
+        "%s", "%d", "%5d", "%-5d", "%05d", "%+d", "% d", "%#x", "%.2f", "%10.3f", "%e", "%g", "%c", "%%", "%(a)s", "%(é)s",
+        "%(a)5.2f", "%ld", "%hd", "%Lf", "%i", "%o", "%X", "%E", "%G", "%F", "a%sb%dc", "%s%s%s", "%", "%5", "%.", "%(", "%(a",
+        "%(a)", "%-", "%0", "%#", "%5.", "%5.2", "%l", "% ", "%+",
+    ];
+    let sfmt_base: &[&str] = &[
+        "{}", "{0}", "{1}", "{a}", "{é}", "{0.a}", "{0[a]}", "{0[é]}", "{0[0]}", "{k[é]}", "{:5}", "{:<5}", "{:>5}", "{:^5}", "{:é<5}",
+        "{:€^7}", "{:𝄞>3}", "{:+}", "{:-}", "{: }", "{:#x}", "{:05}", "{:,}", "{:_}", "{:.2f}", "{:10.3f}", "{:e}", "{:g}", "{:c}", "{:s}",
+        "{:b}", "{:o}", "{:X}", "{:d}", "{:%}", "{{", "}}", "{{}}", "a{}b{}c", "{0}{0}", "{", "}", "{0", "{0.", "{0[", "{0[a", "{:", "{:5",
+        "{:.", "{:<", "{:é", "{!r}", "{0!s:5}", "{:=5}", "{:z}", "{:5,}", "{:5_d}", "{:.2}", "{:5.2s}",
+    ];
+    let mut push = |style: &str, spec: &str, out: &mut Vec<String>, n: usize| {
+        for w in 0..6 {
+            if w == n % 6 || n % 7 == 0 {
+                out.push(format!("f {} {} {}", style, w, hex(spec.as_bytes())));
+            }
+        }
+    };
+    let mut n = 0usize;
+    for (style, base) in [("p", printf_base), ("s", sfmt_base)] {
+        for b in base {
+            for w in 0..6 {
+                out.push(format!("f {} {} {}", style, w, hex(b.as_bytes())));
+            }
+            // a multi-byte character inserted at (and replacing the character at) every position
+            let idx: Vec<usize> = b.char_indices().map(|(i, _)| i).chain(std::iter::once(b.len())).collect();
+            for &i in &idx {
+                for m in MB.iter().take(if thorough { 5 } else { 3 }) {
+                    let ins = format!("{}{}{}", &b[..i], m, &b[i..]);
+                    push(style, &ins, out, n);
+                    n += 1;
+                    if i < b.len() {
+                        let next = i + b[i..].chars().next().unwrap().len_utf8();
+                        let rep = format!("{}{}{}", &b[..i], m, &b[next..]);
+                        push(style, &rep, out, n);
+                        n += 1;
+                    }
+                }
+            }
+        }
+        // random compositions of grammar pieces
+        let lit = ["", "a", "é", "€x", "𝄞", " ", if style == "p" { "%%" } else { "{{" }, if style == "p" { "%" } else { "}}" }];
+        let n_rand = if thorough { 20_000 } else { 2_500 };
+        for _ in 0..n_rand {
+            let mut sp = String::new();
+            for _ in 0..(1 + rng.below(3)) {
+                sp.push_str(pick_s(rng, &lit));
+                if style == "p" {
+                    sp.push('%');
+                    sp.push_str(pick_s(rng, &["", "", "(a)", "(é)", "(日本)", "()", "(a", "(é", "(k)"]));
+                    sp.push_str(pick_s(rng, &["", "", "-", "0", "+", " ", "#", "é", "-0+ #"]));
+                    sp.push_str(pick_s(rng, &["", "", "1", "10", "é", "٣", "1é", "*", "65536"]));
+                    sp.push_str(pick_s(rng, &["", "", ".", ".2", ".é", ".2é", ".0", ".*"]));
+                    sp.push_str(pick_s(rng, &["", "", "l", "h", "L", "é"]));
+                    sp.push_str(pick_s(rng, &["d", "i", "o", "x", "X", "e", "E", "f", "F", "g", "G", "c", "s", "r", "a", "%", "é", "€", "", "𝄞"]));
+                } else {
+                    sp.push('{');
+                    sp.push_str(pick_s(rng, &["", "", "0", "1", "a", "é", "k", "日本", "9", "00"]));
+                    sp.push_str(pick_s(rng, &["", "", ".a", ".é", ".0", "[a]", "[é]", "[0]", "[é", "[", ".", ".a.é", "[a][é]"]));
+                    sp.push_str(pick_s(rng, &["", "", "", "!r", "!s", "!é"]));
+                    if rng.chance(2, 3) {
+                        sp.push(':');
+                        sp.push_str(pick_s(rng, &["", "", "<", ">", "^", "=", "é<", "€^", "𝄞>", "x=", "é", "{<", "}>"]));
+                        sp.push_str(pick_s(rng, &["", "", "+", "-", " ", "é"]));
+                        sp.push_str(pick_s(rng, &["", "", "#", "z", "z#"]));
+                        sp.push_str(pick_s(rng, &["", "", "0", "5", "05", "é", "٣", "65536"]));
+                        sp.push_str(pick_s(rng, &["", "", ",", "_", "é"]));
+                        sp.push_str(pick_s(rng, &["", "", ".2", ".", ".é", ".0"]));
+                        sp.push_str(pick_s(rng, &["", "", "b", "c", "d", "e", "E", "f", "F", "g", "G", "n", "o", "s", "x", "X", "%", "é", "𝄞"]));
+                    }
+                    sp.push_str(pick_s(rng, &["}", "}", "}", "", "}}", "é}"]));
+                }
+            }
+            sp.push_str(pick_s(rng, &lit));
+            if rng.chance(1, 8) {
+                let cut = char_floor(&sp, rng.below(sp.len() as u64 + 1) as usize);
+                sp.truncate(cut);
+            }
+            out.push(format!("f {} {} {}", style, rng.below(6), hex(sp.as_bytes())));
+            // the same spec through the `format` filter of a template (printf style)
+            if style == "p" && !sp.contains('\'') && !sp.contains('\\') && rng.chance(1, 3) {
+                let src = format!("{{{{ '{}'|format(1, 2.5, 'é€', **{{'é': 1, 'a': xs, 'k': m}}) }}}}{{{{ '{}'|format(ms) }}}}", sp, sp);
+                out.push(format!("t fmt:filter 0 {}", hex(src.as_bytes())));
+            }
+        }
     }
 }
 
@@ -1216,8 +1516,9 @@ fn gen_cases(thorough: bool) -> Vec<String> {
     }
     // (1) kernels
     gen_kernel_cases(&mut cases, thorough);
-    // (2) builtins
+    // (2) builtins, format strings
     gen_builtin_cases(&mut cases, &mut rng, thorough);
+    gen_format_cases(&mut cases, &mut rng, thorough);
     // (3) mutated templates: all seeds unchanged first, then mutants
     let seeds = seeds();
     let dict = dict_tokens();
@@ -1266,6 +1567,10 @@ fn main() {
         Some("one") => {
             let case = args[2..].join(" ");
             run_all(vec![case], &["main", "t2m"], Duration::from_secs(120));
+        }
+        Some("streams") => {
+            install_hook();
+            dump_streams(args.get(2).map(|s| s == "thorough").unwrap_or(false));
         }
         Some("info") => {
             // facts about the build the Lean model assumes
